@@ -12,6 +12,7 @@ import NdcubeModel.Model.ExtraCoords
 import NdcubeModel.Model.Crop
 import NdcubeModel.Model.SeqCrop
 import NdcubeModel.Model.SeqCoords
+import NdcubeModel.Model.Arith
 
 /-!
 # Line-protocol driver
@@ -713,6 +714,72 @@ def opTableCoord (j : Json) : R Json := do
     ("sliced", listJson (listJson ratJson) sliced),
     ("interpolated", Json.arr (List.zipWith (fun t g => listJson (optJson ratJson) (interpolateTable t g)) tables grids).toArray)]
 
+/-! ## op `arith` (C10) -/
+
+def asUnitM (j : Json) : R UnitM := do
+  let dim ← field j "dim" >>= asList asInt
+  let scale ← field j "scale" >>= asRat
+  pure { dim := dim, scale := scale }
+
+def unitJson (u : UnitM) : Json := Json.mkObj [("dim", listJson intJson (trimDims u.dim)), ("scale", ratJson u.scale)]
+
+def asOperand (j : Json) : R Operand :=
+  match j with
+  | .str "nddata" => pure .nddata
+  | _ =>
+    match optField j "num" with
+    | some x => (asRat x).map Operand.num
+    | none =>
+      match optField j "arr" with
+      | some v => (asList asRat v).map Operand.arr
+      | none => do
+        let v ← field j "q" >>= asList asRat
+        let u ← field j "unit" >>= asUnitM
+        pure (.quantity v u)
+
+def arithStep (c : ACube) (j : Json) : R (Except Err ACube) := do
+  let op ← field j "op" >>= asStr
+  match op with
+  | "neg" => pure (.ok c.neg)
+  | "to" => do
+    let u ← field j "unit" >>= asUnitM
+    pure (c.to u)
+  | _ => do
+    let v ← field j "operand" >>= asOperand
+    match op with
+    | "add" | "radd" => pure (c.add v)
+    | "sub" => pure (c.sub v)
+    | "rsub" => pure (c.rsub v)
+    | "mul" | "rmul" => pure (c.mul v)
+    | "div" => pure (c.div v)
+    | _ => .error s!"unknown arithmetic op {op}"
+
+def opArith (j : Json) : R Json := do
+  let data ← field j "data" >>= asList asRat
+  let unit ← match optField j "unit" with
+    | none | some .null => pure none
+    | some u => (asUnitM u).map some
+  let unc ← match optField j "unc" with
+    | none | some .null => pure none
+    | some u => do
+      let k ← field u "kind" >>= asStr
+      let a ← field u "arr" >>= asList asRat
+      let kind ← match k with
+        | "std" => pure UncKind.std | "var" => pure UncKind.var | "ivar" => pure UncKind.ivar
+        | _ => pure UncKind.unknown
+      pure (some (kind, a))
+  let ops ← field j "ops" >>= asArr
+  let c0 : ACube := { data := data, unit := unit, unc := unc,
+                      rest := { wcs := 0, extraCoords := 0, globalCoords := 0, mask := none, metaId := 0 } }
+  let rec go (c : ACube) (k : Nat) : List Json → R Json
+    | [] => pure <| Json.mkObj [("data", listJson ratJson c.data), ("unit", optJson unitJson c.unit),
+        ("unc", optJson (fun (p : UncKind × List Rat) => listJson ratJson p.2) c.unc)]
+    | o :: os => do
+      match ← arithStep c o with
+      | .ok c' => go c' (k + 1) os
+      | .error e => pure <| Json.mkObj [("err", .str e.name), ("at", natJson k)]
+  go c0 0 ops
+
 def dispatch (j : Json) : R Json := do
   let op ← field j "op" >>= asStr
   match op with
@@ -736,6 +803,7 @@ def dispatch (j : Json) : R Json := do
   | "crop_item" => opCropItem j
   | "seq_crop" => opSeqCrop j
   | "table_coord" => opTableCoord j
+  | "arith" => opArith j
   | "seq_coords" => opSeqCoords j
   | "seq_axis" => opSeqAxis j
   | _ => .error s!"unknown op {op}"
